@@ -10,7 +10,7 @@
 (*   coh   Select markers coherent, conform is the identity      (C17)     *)
 (* Event: [id, tree, env, rows, bag, checks]  (checks: which clauses)      *)
 (***************************************************************************)
-EXTENDS RA_FromJson, Json, IOUtils
+EXTENDS RA_FromJson, RA_SqlSem, Json, IOUtils
 
 Trace == ndJsonDeserialize(IOEnv.TRACE_FILE)
 VARIABLE l
@@ -26,15 +26,30 @@ NodeOK(n, env) ==
 Verdict(ev) ==
     LET t == FromJTree(ev.tree)
         want(c) == \E i \in DOMAIN ev.checks : ev.checks[i] = c
-    IN [ wf   |-> want("wf") => WellFormed(t),
-         den  |-> want("den") => IF ev.bag THEN SameBag(Den(t, ev.env), ev.rows) ELSE Den(t, ev.env) = ev.rows,
+        wfOK == WellFormed(t)
+    IN \* an ill-formed tree cannot be evaluated (its operations may refer to
+       \* columns that do not exist): it is rejected on clause wf alone
+       IF ~wfOK THEN [wf |-> FALSE, den |-> TRUE, denbag |-> TRUE, denlist |-> TRUE, meta |-> TRUE, coh |-> TRUE]
+       ELSE
+       [ wf   |-> TRUE,
+         \* "den": exact list equality (order-preserving engines only);
+         \* "denbag" / "denlist": guarded by TLC's OWN determinacy analysis of the
+         \* real tree (a database may return any bag / list otherwise), for both
+         \* physical orders of the leaf tables
+         den  |-> want("den") => Den(t, ev.env) = ev.rows,
+         denbag |-> want("denbag") =>
+                        ((BagDet(t, ev.env) /\ BagDet(t, RevEnv(ev.env)))
+                            => SameBag(Den(t, ev.env), ev.rows) /\ SameBag(Den(t, RevEnv(ev.env)), ev.rows)),
+         denlist |-> want("denlist") =>
+                        ((ListDet(t, ev.env) /\ ListDet(t, RevEnv(ev.env)))
+                            => Den(t, ev.env) = ev.rows),
          meta |-> want("meta") => \A n \in Nodes(t) : NodeOK(n, ev.env),
          coh  |-> want("coh") => MarkerCoherent(t) /\ Conform(t) = t ]
 
 Init == l = 1
 Next == /\ l <= Len(Trace)
         /\ LET v == Verdict(Trace[l]) IN
-              IF v.wf /\ v.den /\ v.meta /\ v.coh THEN TRUE
+              IF v.wf /\ v.den /\ v.denbag /\ v.denlist /\ v.meta /\ v.coh THEN TRUE
               ELSE PrintT(<<"TV", ToJson([id |-> Trace[l].id, v |-> v])>>)
         /\ l' = l + 1
         /\ (l' = Len(Trace) + 1 => PrintT(<<"TVDONE", Len(Trace)>>))
